@@ -47,6 +47,12 @@ type recStore struct {
 	parent map[string][]byte
 	// noRec: begin/end do nothing (the store is shared by concurrent goroutines)
 	noRec bool
+	// inner, when set, is the real backend (e.g. the library's file store): bytes go to it and come from it, without any lock of
+	// this wrapper held, so that concurrent callers really meet inside the backend
+	inner interface {
+		Store(context.Context, string, []byte) error
+		Load(context.Context, string) ([]byte, error)
+	}
 }
 
 var errInjected = errors.New("injected fault")
@@ -68,6 +74,16 @@ func (s *recStore) Store(ctx context.Context, name string, b []byte) error {
 			s.mu.Unlock()
 			return err
 		}
+	}
+	if s.inner != nil {
+		err := s.inner.Store(ctx, name, b)
+		s.mu.Lock()
+		s.seq++
+		if s.rec {
+			s.events = append(s.events, storeEvent{s.seq, "store", name, append([]byte{}, b...), err != nil})
+		}
+		s.mu.Unlock()
+		return err
 	}
 	s.mu.Lock()
 	defer s.mu.Unlock()
@@ -91,6 +107,16 @@ func (s *recStore) Store(ctx context.Context, name string, b []byte) error {
 }
 
 func (s *recStore) Load(ctx context.Context, name string) ([]byte, error) {
+	if s.inner != nil {
+		b, err := s.inner.Load(ctx, name)
+		s.mu.Lock()
+		s.seq++
+		if s.rec {
+			s.events = append(s.events, storeEvent{s.seq, "load", name, nil, err != nil})
+		}
+		s.mu.Unlock()
+		return b, err
+	}
 	s.mu.Lock()
 	defer s.mu.Unlock()
 	s.seq++
@@ -143,6 +169,10 @@ func (s *recStore) end() []storeEvent {
 }
 
 func (s *recStore) has(name string) bool {
+	if s.inner != nil {
+		_, ok := s.get(name)
+		return ok
+	}
 	s.mu.Lock()
 	defer s.mu.Unlock()
 	_, ok := s.m[name]
@@ -150,6 +180,10 @@ func (s *recStore) has(name string) bool {
 }
 
 func (s *recStore) get(name string) ([]byte, bool) {
+	if s.inner != nil {
+		b, err := s.inner.Load(context.Background(), name)
+		return b, err == nil
+	}
 	s.mu.Lock()
 	defer s.mu.Unlock()
 	b, ok := s.m[name]
